@@ -113,13 +113,13 @@ func coveringProblemN(r *rand.Rand, nn0 int) (front string, n int, strict bool, 
 // sides in the middle of the reachable range: the search meets real conflicts whose reasons are
 // cardinality / PB constraints (literals of a reason may be true or unbound).
 func hardPB(r *rand.Rand) (string, []gen.M) {
-	n := 4 + r.Intn(5)
+	n := 5 + r.Intn(4)
 	var cons []gen.M
 	front := "pb"
 	if r.Intn(4) == 0 {
 		front = "card"
 	}
-	for j := 0; j < 2+r.Intn(4); j++ {
+	for j := 0; j < 3+r.Intn(4); j++ {
 		k := 2 + r.Intn(min(n, 5)-1)
 		lits := gen.DistinctLits(r, n, k)
 		if front == "card" {
@@ -308,7 +308,7 @@ func init() {
 			var res []core.Case
 			for i := 0; i < env.Pick(3000, 36000); i++ {
 				front, _, cons := randConstraintProblem(r, 6, 5, 4)
-				if i%3 == 0 { // conflict-heavy: several equalities / tight inequalities with mixed signs
+				if i%2 == 0 { // conflict-heavy: several equalities / tight inequalities with mixed signs
 					front, cons = hardPB(r)
 				}
 				n := maxVarOfCons(cons)
@@ -609,7 +609,7 @@ func init() {
 						clauses = append(clauses, []int{gen.RandLit(r, nv)})
 					}
 					clauses = gen.Shuffle(r, clauses)
-					rounds = 3 + r.Intn(4)
+					rounds = 4 + r.Intn(5)
 				}
 				cfg := gen.Cfg(false, 0, 0, false, false, true)
 				var ev []gen.M
@@ -620,7 +620,7 @@ func init() {
 					for j := 0; j < k; j++ {
 						ls = append(ls, gen.RandLit(r, nv))
 					}
-					if len(prev) > 0 && r.Intn(2) == 0 { // contradict an assumption of an earlier round
+					if len(prev) > 0 && r.Intn(3) > 0 { // contradict an assumption of an earlier round
 						ls = append(ls, -prev[r.Intn(len(prev))])
 					}
 					if r.Intn(5) == 0 {
